@@ -425,7 +425,7 @@ def run(rep, tier="quick", srcdir=None, only=None):
 
 
 MANIFEST = {
-    "technique": "atomic-site shape rules (width, constant, order from IR types) + bit-level transition extraction on dg_state + path-sensitive must-pass rules",
+    "technique": "atomic-site shape rules (width, constant, order from IR types) + bit-level transition extraction on dg_state + path-sensitive must-pass rules + concrete evaluation of dispatch_group_enter over the previous-state grid (count field x flag bits)",
     "level": "the enter/leave operations, the last-leave wake, the wake's treatment of waiters and notifications, the notify CAS protocol and every "
              "return path of dispatch_group_wait/_dispatch_group_wait_slow are checked against the group protocol obligations for all interleavings "
              "(each is a per-step or per-path obligation); generation wrap-around and futex semantics are trusted",
